@@ -128,8 +128,15 @@ class Dual:
 
 
 class DU:
-    """dual-number backend (scalars only)."""
+    """dual-number backend (scalars only; vectors are Python lists of Dual)."""
     name = "dual"
+
+    @staticmethod
+    def el(X, i):
+        if isinstance(X, (list, tuple)):
+            return X[i]
+        assert i == 0
+        return X
 
     @staticmethod
     def sin(x):
